@@ -102,3 +102,8 @@ Definition append_steps (n128 : N) (ents : list sentry) (e : sentry) (f : list N
   let f2 := write_at (8 + 8 * cap + 8 * S n) (le_bytes 8 (N.of_nat (from + length de))) f1 in
   let f3 := write_at (8 + 8 * n) (le_bytes 8 (raw_meta e)) f2 in
   [f1; f2; f3].
+
+(** ---------- a status change as the store of one metadata word (chg_status / chg_multi_status) ---------- *)
+Definition set_status (st : status) (e : sentry) : sentry := {| e_st := st; e_id := e_id smoc e; e_moc := e_moc smoc e |}.
+Definition chg_store (pos : nat) (st : status) (ents : list sentry) (f : list N) : list N :=
+  write_at (8 + 8 * pos) (le_bytes 8 (raw_meta (set_status st (nth pos ents {| e_st := Valid; e_id := 0; e_moc := (0, []) |})))) f.
